@@ -403,7 +403,29 @@ def legal_attr(shape, how, name):
         return False            # name mangling inside __slots__
     if name == "payload":
         return False
-    return True
+    return _python_accepts(shape, how, name)
+
+
+_ACCEPTS = {}
+
+
+def _python_accepts(shape, how, name):
+    """The rules above are a hand list; Python itself has the last word: a class of this shape that cannot be CREATED
+    (or instantiated) with an attribute of this name - namedtuple / dataclass refuse a keyword, Enum refuses some
+    reserved names - is not a class a student can write, so it is not generated (counted in COLLIDE_STATS, never a
+    harness error).  Decided by building the minimal carrier once per (shape, how, name)."""
+    key = (shape, how, name)
+    if key not in _ACCEPTS:
+        try:
+            env = build_classes([{"name": "T", "base": None, "dunders": {}, "conv": {}, "shape": shape,
+                                  "attrs": [[name, how, "0"]]}])
+            build_value({"kind": "user", "cls": "T", "payload": 1}, env)
+            _ACCEPTS[key] = None
+        except (TypeError, ValueError, AttributeError, SyntaxError) as e:
+            _ACCEPTS[key] = type(e).__name__
+    if _ACCEPTS[key] is not None:
+        COLLIDE_STATS["python-refuses:%s/%s/%s (%s)" % (shape, how, name, _ACCEPTS[key])] = 1
+    return _ACCEPTS[key] is None
 
 
 def rich_conv(rng, spec, p=0.6):
